@@ -39,6 +39,11 @@ def odr : P String := do
   let h ← P.tok; let f ← P.tok; P.bar; let _ ← P.bool; P.eof
   return s!"fail odr:{h} multiple_definition {f}"
 
+/-- `guard <component> <clause> | ok` : a call run in a forked child returned normally with the expected answer -/
+def guard : P String := do
+  let comp ← P.tok; let clause ← P.tok; P.bar; let ok ← P.bool; P.eof
+  if ok then return "ok guard" else return s!"fail {comp} undefined_behaviour_{clause}"
+
 /-- `crash <harness> <case> | <kind>` : sanitizer/abort/hang outcome of another property's harness (C10 runtime clause) -/
 def crash : P String := do
   let h ← P.tok; let c ← P.tok; P.bar; let kind ← P.tok
@@ -62,6 +67,7 @@ def handle (toks : List String) : String :=
    | "fgcopy" :: rest => some (fgcopy rest)
    | "crash" :: rest => P.run crash rest
    | "api" :: rest => P.run api rest
+   | "guard" :: rest => P.run guard rest
    | "odr" :: rest => P.run odr rest
    | _ => DrvC10Util.handle toks).getD "bad-op"
 end DrvC10
